@@ -5,6 +5,7 @@ mod hs;
 mod c02;
 mod imw;
 mod c06;
+mod c06x;
 mod c12e;
 mod c13e;
 mod c14;
@@ -55,6 +56,7 @@ fn main() {
             "c20rv" => c20rv::run(&a[2..]),
             "life" => life::run(&a[2..]),
             "c06" => c06::run(&a[2..]),
+            "c06x" => c06x::run(&a[2..]),
             "c12e" => c12e::run(&a[2..]),
             "c13e" => c13e::run(&a[2..]),
             "c14" => c14::run(&a[2..]),
